@@ -141,21 +141,41 @@ def r6_1(run):
         rb = ANF(ix, f, param_alias=alias).run()
         L = expect(ix, f, "net[cls.table_name()].index")
         tbl = expect(ix, f, "cls.table_name()")
-        fills = [s_ for s_ in rb.stores() if s_.base == ("n", "idx_lookups") and s_.index == (tbl,)
-                 and tkey(s_.value) == tkey(expect(ix, f, "-np.ones(L.max() + 1, dtype=np.int32)", env={"L": L}))]
-        # the scatter of position + start into that array: on the same path, or after the if/else whose non-empty arm
-        # allocated it (the base is then resolved under the path condition of the allocation)
-        from ..arrnf import _facts_of, _resolve_ite
-        sets_ = []
-        for s_ in rb.stores():
-            if s_.index == (L,) and fills and s_.seq > fills[0].seq \
-                    and tkey(s_.value) == tkey(expect(ix, f, "np.arange(len(L)) + current_start", env={"L": L})):
-                base = _resolve_ite(s_.base, _facts_of(fills[0].cond, rb), {}) if fills[0].cond else s_.base
-                c1 = {(tkey(c), p_) for c, p_ in s_.cond}
-                c0 = {(tkey(c), p_) for c, p_ in fills[0].cond}
-                if tkey(base_of(base)) == tkey(fills[0].value) and c1 <= c0:
-                    sets_.append(s_)
-        ok = len(fills) == 1 and bool(sets_)
+        from ..arrnf import ite_leaves
+        want_alloc = expect(ix, f, "-np.ones(L.max() + 1, dtype=np.int32)", env={"L": L})
+        want_set = expect(ix, f, "np.arange(len(L)) + current_start", env={"L": L})
+
+        def peel(t):
+            chain = []
+            while t[0] == "upd":
+                chain.append((t[2], t[3]))
+                t = t[1]
+            return t, chain
+
+        def alloc_ok(b):
+            # -1 everywhere where the table is not empty; an empty array otherwise (scattering nothing into it is a no-op)
+            lv = [leaf for _, leaf in ite_leaves(b)]
+            def empty(t):
+                return t[0] == "call" and t[1] == ("x", "numpy.array") and t[2] and (t[2][0][0] == "new" or t[2][0] == ("list", ()))
+            return any(tkey(x) == tkey(want_alloc) for x in lv) and all(tkey(x) == tkey(want_alloc) or empty(x) for x in lv)
+        ok = False
+        stores_ = rb.stores()
+        for s_ in stores_:
+            if not (s_.base == ("n", "idx_lookups") and s_.index == (tbl,)):
+                continue
+            b, chain = peel(s_.value)
+            if not alloc_ok(b):
+                continue
+            # the scatter of position + start: already part of the stored array, or applied to it afterwards on every path
+            if any(i_ == (L,) and tkey(v_) == tkey(want_set) for i_, v_ in chain):
+                ok = True
+            c0 = {(tkey(c), p_) for c, p_ in s_.cond}
+            for s2 in stores_:
+                if s2.seq > s_.seq and s2.index == (L,) and tkey(s2.value) == tkey(want_set) \
+                        and {(tkey(c), p_) for c, p_ in s2.cond} <= c0:
+                    b2, _ = peel(s2.base)
+                    if alloc_ok(b2) or tkey(b2) == tkey(b):
+                        ok = True
         run.ob("builder|%s" % f.short, ok,
                "the index lookup is -1 everywhere and position+start at the table's labels", run.where(f, f.node))
     run.floor(25)
